@@ -543,6 +543,46 @@ type Parent struct {
 	PW       *time.Time `valid:"exist"`
 }
 
+// Chain: self-referential type, for sub-objects far below the top ("to any depth").
+type Chain struct {
+	V    string         `valid:"required"`
+	Next *Chain         `valid:"exist"`
+	Kids []*Chain       `valid:"exist"`
+	ByID map[int]*Chain `valid:"exist"`
+	Skip *Chain         // unmarked: never validated
+}
+
+func chain(depth int, via string) *Chain {
+	root := &Chain{V: "ok"}
+	cur := root
+	for i := 0; i < depth; i++ {
+		n := &Chain{V: "ok"}
+		if i == depth-1 {
+			n.V = "" // only the deepest node violates
+		}
+		switch via {
+		case "next":
+			cur.Next = n
+		case "kids":
+			cur.Kids = []*Chain{nil, n}
+		case "map":
+			cur.ByID = map[int]*Chain{i: n}
+		default:
+			switch i % 3 {
+			case 0:
+				cur.Next = n
+			case 1:
+				cur.Kids = []*Chain{n}
+			default:
+				cur.ByID = map[int]*Chain{-i: n}
+			}
+		}
+		cur.Skip = &Chain{} // violating, but unmarked
+		cur = n
+	}
+	return root
+}
+
 type namedCase struct {
 	v    interface{}
 	desc string
@@ -565,6 +605,11 @@ func namedCases() []namedCase {
 		MI: map[int]*Mid{7: &badMid}, UM: &badMid, PW: &now})
 	add("nil inner pointers", Parent{Name: "n", M: okMid, PPM: new(*Mid), AM: [2]*Mid{nil, nil}, MM: map[string]*Mid{"a": nil}, MI: map[int]*Mid{1: nil, 2: nil}, Embedded: Embedded{"e"}})
 	add("slices", Parent{Name: "n", M: okMid, SM: []Mid{emptyMid, emptyMid}, AM: [2]*Mid{&emptyMid, &okMid}, MM: map[string]*Mid{"z": &emptyMid}, Embedded: Embedded{"e"}})
+	for _, via := range []string{"next", "kids", "map", "mixed"} {
+		for _, d := range []int{1, 4, 31, 32, 33, 64, 200} {
+			out = append(out, namedCase{chain(d, via), fmt.Sprintf("*Chain depth %d via %s", d, via)}, namedCase{[]*Chain{chain(d, via), nil, chain(2, via)}, fmt.Sprintf("[]*Chain depth %d via %s", d, via)})
+		}
+	}
 	add("unmarked only", Parent{Name: "n", M: okMid, UM: &badMid, AM: [2]*Mid{&okMid, &okMid}, MM: map[string]*Mid{"a": &okMid}, Embedded: Embedded{"e"}})
 	return out
 }
@@ -575,7 +620,7 @@ func main() {
 		Technique: "bounded-exhaustive enumeration of acyclic object graphs (container grammar, depth<=3) vs walk reference model (expected clause/path list)",
 		Rule: "types: 18 containers of Leaf {T,*T,**T,[]T,[]*T,[]**T,[2]T,[2]*T,map[string]T,map[string]*T,map[int]*T,map[bool]T,map[int32]**T,map[float64]*T,map[struct]T,map[interface{}]*T,map[[2]int]T,map[uint8]T} x marks {required,exist,none} as one or two fields (+unexported incl. names starting with '_' / a CJK or non-ASCII lower-case letter, time.Time, unmarked extras), " +
 			"nested once more through every container of Mid (depth 3; thorough: unmarked outer fields too, and a depth-4 space over 8 container kinds per level); values: nil / zero / valid / violating nodes, collections of length 0..2 with every mix; top-level input T,*T,**T,[]T,[]*T,[2]T,map[string]*T,map[int]T; " +
-			"plus a named Parent/Mid/Leaf family; Leaf = {required, to=1~3, either group of two}; expected clauses from the walk model: field clauses compared in order (as a multiset when a map with >=2 entries is iterated), group clauses (reported after the walk, path-qualified per sub-object) after them as a multiset; non-trivial = a violation at depth>=2",
+			"plus a named Parent/Mid/Leaf family and self-referential chains to depth 200 through pointers, slices and maps; Leaf = {required, to=1~3, either group of two}; expected clauses from the walk model: field clauses compared in order (as a multiset when a map with >=2 entries is iterated), group clauses (reported after the walk, path-qualified per sub-object) after them as a multiset; non-trivial = a violation at depth>=2",
 		Assumptions: []string{"acyclic graphs only (statement)", "walk model internal/walk"},
 		Run:         run,
 	})
